@@ -9,6 +9,7 @@ From Refinery Require Gen.GenC10.
    "<= 1 keeps all", "<=" comparison, 4 hash bytes, rate returned unchanged). *)
 Theorem C10_source_shape :
   GenC10.det_max = 4294967295 /\ GenC10.det_conv_bits = 32 /\ GenC10.det_always_le = 1 /\
+  GenC10.det_start_guarded = true /\
   GenC10.det_cmp_le = true /\ GenC10.det_hash_bytes = 4 /\
   GenC10.det_rate_from_config = true /\ GenC10.det_returns_rate = true /\
   GenC10.det_hash_of_traceid_and_salt = true.
@@ -63,11 +64,18 @@ Theorem C10_det_fraction : forall rate,
 Proof. exact det_fraction. Qed.
 Print Assumptions C10_det_fraction.
 
-(* Outside the property's range: Start converts the rate to uint32 before dividing, so every
-   multiple of 2^32 (0 included) divides by zero.  Reported to C28 (owner of the crash property). *)
-Theorem C10_det_division_by_zero_outside_range : forall k, det_start (k * 4294967296) = None.
-Proof. exact det_crash_multiple. Qed.
-Print Assumptions C10_det_division_by_zero_outside_range.
+(* Start never panics, for any Go int (the guard added for C28 is part of the model) … *)
+Theorem C10_det_start_never_panics : forall rate,
+  -9223372036854775808 <= rate < 9223372036854775808 -> det_start rate <> None.
+Proof. exact det_start_total. Qed.
+Print Assumptions C10_det_start_never_panics.
+
+(* … and rates that do not fit in 32 bits (outside C10's range) keep only the hash value 0 *)
+Theorem C10_det_rates_above_32_bits : forall rate h,
+  4294967296 <= rate < 9223372036854775808 ->
+  det_sample rate h = Some (rate, h <=? 0).
+Proof. exact det_big_rate. Qed.
+Print Assumptions C10_det_rates_above_32_bits.
 
 (* Stress relief, every configured rate 0 <= cfg < 2^64 (0 is read as 1) and every hash *)
 Theorem C10_stress_threshold : forall cfg h,
@@ -101,7 +109,8 @@ Example C10_nonvacuous :
   det_sample 3 1431655765 = Some (3, true) /\ det_sample 3 1431655766 = Some (3, false) /\
   det_sample 2 1431655766 = Some (2, true) /\ det_sample 1 4294967295 = Some (1, true) /\
   det_sample 2147483648 1 = Some (2147483648, true) /\ det_sample 2147483648 2 = Some (2147483648, false) /\
-  det_sample 4294967296 0 = None /\
+  det_sample 4294967296 0 = Some (4294967296, true) /\ det_sample 4294967296 1 = Some (4294967296, false) /\
+  det_sample 0 77 = Some (1, true) /\ det_sample (-4294967296) 77 = Some (1, true) /\
   stress_sample 0 18446744073709551615 = (1, true) /\
   stress_sample 3 6148914691236517205 = (3, true) /\ stress_sample 3 6148914691236517206 = (3, false) /\
   stress_sample 18446744073709551615 1 = (18446744073709551615, true) /\
